@@ -127,15 +127,23 @@ claim("C10",
       note="Member classifiers obey the estimator protocol (assumed). fit / fit_improve / get_leaves_index are bounded only.",
       technique="deductive verification: recursive contracts over ghost functions P and onpath, mask lemmas; z3 5.1 raced with z3 4.8.12")
 claim("C07",
-      text="Proof of the bookkeeping around the association step: at every call site (constraint_predictions, constraint_kmeans) the quota handed over is "
-           "floor(n/k) with leftover n - k*floor(n/k) in [0,k) and one counter/flag per cluster, one label/distance per point; constraint_kmeans (while loop "
-           "invariant): n_iter <= max_iter, the returned labels are one per training point, training data never written, every association uses the caller's "
-           "strategy; ConstraintKMeans.predict: balanced predictions are the labels of one balanced association of the batch with strategy+'_p', otherwise "
-           "KMeans.predict (nearest centre). The size constraint itself is carried by the bounded stand-in: ALL k<=n<=12 (14), k<=5, both strategies, "
-           "kmeans0 in {T,F}: exact cluster sizes for fit and balanced predict, label validity, n_iter_, finite centres.",
-      note="_constraint_association (distance and gain) is an ASSUMED contract: the counting argument over its three nested randomised loops is not proved. "
-           "Known finding: 'gain' is unbalanced when n mod k >= 2.",
-      technique="deductive verification of the quota arithmetic and driver invariants (z3); the size postcondition only by exhaustive bounded enumeration")
+      text="Proof, for strategy 'distance' (and 'distance_p' of balanced predictions): _constraint_association_distance - the real three nested loops - gives "
+           "every point a cluster in [0,k) and every cluster floor(n/k) or floor(n/k)+1 points (postcondition over the ghost counting function cnt: "
+           "forall q in [0,k): lim <= cnt(labels,q,n) <= lim+1 with lim*k <= n < (lim+1)*k). Loop invariants: counters[c] = cnt(labels,c,n); a cluster is "
+           "open with <= lim points or closed with exactly lim+1; sum(counters) = n - cnt(labels,-1,n); extras left + extras given = leftover; visited points are "
+           "assigned (through the ghost inverse of the argsort permutation); the inner loop writes nothing before its break and cannot run out of centres "
+           "(pigeonhole); the outer while loop runs at most once. _randomize_index keeps its argument a permutation, _switch_clusters keeps every cluster "
+           "size (cnt unchanged by a swap). The property is carried by contracts through the dispatcher _constraint_association, constraint_predictions, "
+           "constraint_kmeans (invariant: live and best labels balanced; n_iter <= max_iter; data not written), ConstraintKMeans.fit (labels_ balanced, "
+           "max_iter restored, n_iter_ <= max_iter, both kmeans0 settings) and ConstraintKMeans.predict (balanced predictions balanced; otherwise "
+           "KMeans.predict). The lemma schemas of cnt / sumI are proved in lemmas/Counting.lean (Lean 4 + Mathlib, run by the check). Bounded stand-in on "
+           "the real code: ALL k<=n<=12 (14), k<=5, both strategies, kmeans0 in {T,F}: exact sizes for fit and balanced predict, label validity, n_iter_, "
+           "finite centres, nearest-centre predict.",
+      note="Strategy 'gain': _constraint_association_gain is an ASSUMED contract with no size claim - known finding: unbalanced when n mod k >= 2 (bounded "
+           "stand-in pins the witness). numpy.argsort / min / max / random.permutation / euclidean_distances / KMeans.fit are assumed models; termination "
+           "of the association loops is not proved; integers are mathematical.",
+      technique="deductive verification (weakest-precondition style VC generation from the real source, loop invariants over ghost counting functions, z3 "
+                "4.8.12/5.1) with Lean-checked lemma schemas; bounded enumeration as a labelled stand-in for strategy 'gain' and the end-to-end fit")
 claim("C04",
       text="Proof: (1) the prediction methods under contract (PiecewiseRegressor.predict, PiecewiseClassifier.predict/predict_proba, the decision-tree-of-"
            "classifiers node methods, SkBaseTransformLearner.transform, TransferTransformer.transform, IntervalRegressor.predict_all) all have a row-wise "
